@@ -645,4 +645,80 @@ def rule_steps(ctx):
                         "consumers of paths accept unary (single-term) steps", lambda i: True, 1)
 
 
-RULES = [rule_consume, rule_remain, rule_complete, rule_linearids, rule_steps]
+def rule_childless(ctx):
+    """(sensitivity map) `build_divide` runs `while tree.childless` and partitions whatever node that set hands it;
+    the set is a typestate kept by `contract_nodes_pair`: a node is in it iff it has more than one leaf and no
+    children yet.  Linking a parent removes the parent and adds each child exactly when the child is such a
+    node — a leaf in the set is 'partitioned' for ever, a missing intermediate is never divided."""
+    r = RuleResult("C05-CHILDLESS", "the set of nodes still to divide is maintained exactly", 3)
+    tc = ctx.p.cls(C.CORE, "ContractionTree")
+    f = tc.lookup("contract_nodes_pair")
+    C.require(f is not None, "contract_nodes_pair not found")
+    blk = [n for n in walk_local(f.node) if isinstance(n, ast.If) and C.unparse(n.test) == "self.track_childless"]
+    C.require(len(blk) == 1, "contract_nodes_pair: `if self.track_childless:` block not found")
+    b = blk[0]
+    params = [a.arg for a in f.node.args.args][1:3]
+    parent = None
+    for n in walk_local(f.node):
+        if isinstance(n, ast.Assign) and isinstance(n.targets[0], ast.Name) and isinstance(n.value, ast.Call) \
+                and isinstance(n.value.func, ast.Attribute) and n.value.func.attr == "union":
+            parent = n.targets[0].id
+    la = ctx.r.local_assignments(f)
+    k = ctx.key(f, "C05-CHILDLESS", "parent")
+    dis = [st for st in b.body if isinstance(st, ast.Expr) and isinstance(st.value, ast.Call)
+           and C.unparse(st.value.func) == "self.childless.discard" and dotted(st.value.args[0]) == parent]
+    fl = ctx.flow(f)
+    link = [n for n in walk_local(f.node) if isinstance(n, ast.Assign) and
+            any(isinstance(t, ast.Subscript) and C.unparse(t.value) == "self.children" for t in n.targets)]
+    if dis and link:
+        r.ok(k, C.loc(f, dis[0]), "the linked parent leaves the set unconditionally")
+    else:
+        r.violation(k, C.loc(f, b), "the linked parent is not removed from the set of childless nodes: the dividing loop "
+                    "picks it again although it already has children")
+    for c in params:
+        k = ctx.key(f, "C05-CHILDLESS", f"child:{c}")
+        adds = [st for st in ast.walk(b) if isinstance(st, ast.Call) and C.unparse(st.func) == "self.childless.add"
+                and dotted(st.args[0]) == c]
+        if len(adds) != 1:
+            r.violation(k, C.loc(f, b), f"child `{c}` is added to the set {len(adds)} times (expected once, guarded)")
+            continue
+        g = [i_ for i_, t in C.enclosing_ifs(f, C.enclosing_stmt(f, adds[0])) if t and i_ is not b]
+        t = g[0].test if g else None
+        conj = t.values if isinstance(t, ast.BoolOp) and isinstance(t.op, ast.And) else ([] if t is None else [t])
+        no_children = any(isinstance(x, ast.Compare) and isinstance(x.ops[0], ast.NotIn) and dotted(x.left) == c
+                          and C.unparse(x.comparators[0]) == "self.children" for x in conj)
+        big = False
+        for x in conj:
+            if isinstance(x, ast.Compare) and len(x.ops) == 1 and isinstance(x.comparators[0], ast.Constant):
+                left = x.left
+                if isinstance(left, ast.Name):
+                    defs = la.get(left.id, [])
+                    # nx, ny = len(x), len(y)
+                    is_len = any(C.unparse(v) == f"len({c})" for v in defs) or any(
+                        isinstance(v, ast.Tuple) for v in defs)
+                    tup = [n for n in walk_local(f.node) if isinstance(n, ast.Assign) and isinstance(n.targets[0], ast.Tuple)
+                           and isinstance(n.value, ast.Tuple)]
+                    for tp in tup:
+                        for te, ve in zip(tp.targets[0].elts, tp.value.elts):
+                            if dotted(te) == left.id:
+                                is_len = C.unparse(ve) == f"len({c})"
+                elif isinstance(left, ast.Call):
+                    is_len = C.unparse(left) == f"len({c})"
+                else:
+                    is_len = False
+                v, op = x.comparators[0].value, x.ops[0]
+                if is_len and ((isinstance(op, ast.Gt) and v == 1) or (isinstance(op, ast.GtE) and v == 2)
+                               or (isinstance(op, ast.NotEq) and v == 1)):
+                    big = True
+        if isinstance(t, ast.BoolOp) and isinstance(t.op, ast.Or):
+            no_children = big = False
+        if no_children and big:
+            r.ok(k, C.loc(f, adds[0]), f"`{c}` joins the set iff it has no children yet and more than one leaf")
+        else:
+            r.violation(k, C.loc(f, adds[0]), f"`{c}` joins the set under `{C.unparse(t, 60) if t is not None else 'no test'}`, expected "
+                        f"`{c} not in self.children and len({c}) > 1`: a leaf (or an already divided node) in the set is handed "
+                        f"to the partitioner again and again, a missing intermediate is never divided")
+    return r
+
+
+RULES = [rule_consume, rule_remain, rule_complete, rule_linearids, rule_steps, rule_childless]
